@@ -72,6 +72,35 @@ def _line_cb(code, line):
     return None
 
 
+UNWIND_TOOL = 5
+_unw = {"on": False}
+
+
+def _unwind_cb(code, offset, exc):
+    if code.co_filename in ("<string>", "<vyxal-program>") and code.co_name.startswith(("_lambda_", "VAR_", "list_item")):
+        if not isinstance(exc, (SystemExit, Watchdog)):
+            PROBE["unwinds"] = PROBE.get("unwinds", 0) + 1
+    return None
+
+
+def _unwind_monitor(on):
+    """Counts lambda / function / list-item frames of the transpiled program that are
+    left by an exception (their epilogue does not run). A program in which that happened
+    did not 'finish normally' even if something further up swallowed the error."""
+    E = sys.monitoring.events
+    if on and not _unw["on"]:
+        try:
+            sys.monitoring.use_tool_id(UNWIND_TOOL, "verif-unwind")
+        except ValueError:
+            pass
+        sys.monitoring.register_callback(UNWIND_TOOL, E.PY_UNWIND, _unwind_cb)
+        sys.monitoring.set_events(UNWIND_TOOL, E.PY_UNWIND)
+        _unw["on"] = True
+    elif not on and _unw["on"]:
+        sys.monitoring.set_events(UNWIND_TOOL, 0)
+        _unw["on"] = False
+
+
 def _arm_line_monitor(source, ns):
     """M-LINE: LINE events set *locally* on the transpiled program's code object;
     at the first line of every top-level Python statement the four bookkeeping
@@ -181,7 +210,8 @@ def run_impl(text, inputs=(), flags="", online=False, timeout=10, line_monitor=F
     install()
     PROBE.update(ns=None, source=None, depth_before=None, depth_after=None, raised=None,
                  reads=[], stack_before_output=None, context_top=None, line_state=None,
-                 want_lines=line_monitor, want_stack=observe_stack)
+                 want_lines=line_monitor, want_stack=observe_stack, unwinds=0)
+    _unwind_monitor(line_monitor)
     calls0 = PROBE["calls"]
     out = {"error": None}
     record = None
@@ -222,6 +252,8 @@ def run_impl(text, inputs=(), flags="", online=False, timeout=10, line_monitor=F
     out["line_checks"] = st["checks"] if st else 0
     out["line_first_bad"] = st["first_bad"] if st else None
     out["shapes"] = st["shapes"] if st else None
+    out["unwinds"] = PROBE.get("unwinds", 0)
+    _unwind_monitor(False)
     PROBE["line_state"] = None
     PROBE["reads"] = None
     return out
